@@ -2184,8 +2184,12 @@ func nfold(sc *Scenario, n int) map[string]int {
 					ref = k
 				}
 			}
-			for _, fp := range overlapped(sc, root, t) {
-				if fp != ref && len(res) == 1 {
+			// on a parent state that was just committed and has not been opened by anybody yet (what a
+			// node has right after adding the parent block)
+			rootO, tO := buildParent(sc)
+			agreed := len(res) == 1
+			for _, fp := range overlapped(sc, rootO, tO) {
+				if fp != ref && agreed {
 					fp = "OVERLAPPED-HANDLES " + fp
 				}
 				res[fp]++
